@@ -160,7 +160,9 @@ void rf_wavheader_init(rf_wavheader_t *wh, int sfreq, int num_channels,
 		rf_wavheader_format_t format)
 {
 	memcpy(wh->chunk_id, riff, 4);
-	wh->chunk_size = 12 + 18 + 12 + 8; // chunks: riff, fmt, fact, data
+	// bytes following the size field: form type, fmt, fact (float only), data
+	wh->chunk_size = (format == RF_WAVHEADER_FLOAT ? 4 + (8 + 18) + 12 + 8 :
+							 4 + (8 + 16) + 8);
 	memcpy(wh->format, wave, 4);
 
 	memcpy(wh->fmt_chunk_id, fmt, 4);
